@@ -99,6 +99,21 @@ fn prefixes<F: Family>(p: &F::Packet, t: &mut Tape, ctx: &mut Ctx) -> CaseResult
             Err(e) if F::is_eof(&e) => {}
             other => viol!("poll decoder on the first {} of {} bytes returned {:?} instead of an EOF error; packet {}", k, enc.len(), other.map(|q| fam::render(&q.pkt)), fam::render(p)),
         }
+        // "incomplete" means the rest may still come: the prefix as a first instalment (its end reported as end of input, an
+        // EOF error from the decoder), then the rest with the same state - the packet, nothing lost of what was consumed
+        if k >= 1 && enc.len() <= 70_000 && (k <= hl_of_enc + 4 || k % 3 == 0) {
+            let mut steps: Vec<Step> = vec![Step::Chunk(1); k.min(hl_of_enc)];
+            if k > hl_of_enc {
+                steps.push(Step::Chunk(k - hl_of_enc));
+            }
+            steps.push(Step::End);
+            let two = fam::dec_poll_styled::<F>(&enc, &steps, 0, None, false, (k & 1) as u8);
+            match &two.result {
+                Ok(ok) if ok.pkt == *p && ok.total == enc.len() && two.resumed_after_end == 1 => {}
+                other => viol!("poll decoder given the first {} of {} bytes (answer: end of input), then the rest with the same state: {:?} after {} resumption(s) instead of the packet {}", k, enc.len(), other.as_ref().map(|q| fam::render(&q.pkt)), two.resumed_after_end, fam::render(p)),
+            }
+            ctx.label("prefix-then-rest-with-the-same-state");
+        }
         // other ways a stream can end after k bytes (one of them per cut, rotating): the transport reports the end
         // as Err(UnexpectedEof) (what TLS wrappers do when the peer vanishes without close_notify) in any payload
         // shape, to the poll or to the async decoder; or it trickles the prefix in one byte at a time first
